@@ -57,19 +57,97 @@ theorem orig_addParentsL (mt : Int) (src : List (Bytes × Content)) (ds : List B
         · exact Or.inr ⟨rfl, d, hd, List.mem_map.mpr ⟨q, hps q (by simp), rfl⟩⟩
         · exact h p hp
 
-/-- one step of the loop, for an entry that is irrelevant, an implicit directory, a directory or file-like -/
+/-- the entry files.addGlobbedFiles makes of one (source, destination) pair of a glob -/
+def globEntry (O : Oracle) (umask : Nat) (mtime : Int) (orig : Content) (p : Bytes × Bytes) : Bytes × Content :=
+  let d := normFile p.2
+  let fi := orig.info.map (fun fi => { fi with size := 0 })
+  let nf := withDefaults O umask mtime
+    { dst := normFile d, src := toNix p.1, type := orig.type, info := fi, packager := orig.packager }
+  let nf := match O.readlink p.1 with
+    | some tgt => { nf with src := tgt, type := T.symlink }
+    | none => nf
+  (d, nf)
+
+theorem orig_addGlobbed (O : Oracle) (umask : Nat) (mt : Int) (orig : Content) (pairs : List (Bytes × Bytes))
+    (src : List (Bytes × Content)) (ds : List Bytes) (m m' : CMap) (h : Orig mt src ds m)
+    (hok : addGlobbed O umask mt orig pairs m = .ok m') :
+    Orig mt (pairs.map (globEntry O umask mt orig) ++ src) (pairs.map (fun p => normFile p.2) ++ ds) m' := by
+  induction pairs generalizing m src ds with
+  | nil => simp [addGlobbed] at hok; subst hok; simpa using h
+  | cons p rest ih =>
+    obtain ⟨s0, d0⟩ := p
+    unfold addGlobbed at hok
+    simp only [] at hok
+    split at hok
+    · cases hok
+    · split at hok
+      · cases hok
+      · rename_i m1 hm1
+        have h1 : Orig mt src (normFile d0 :: ds) m1 :=
+          orig_addParentsL mt src (normFile d0 :: ds) (normFile d0) _ (fun _ hq => hq) (by simp) m m1
+            (orig_mono h (fun _ hx => hx) (fun _ hx => List.mem_cons_of_mem _ hx)) hm1
+        have h2 : Orig mt (globEntry O umask mt orig (s0, d0) :: src) (normFile d0 :: ds)
+            (m1.insert (normFile d0) (globEntry O umask mt orig (s0, d0)).2) := by
+          intro q hq
+          rcases mem_insert_cases _ _ _ _ hq with rfl | hq
+          · left; simp [globEntry]
+          · rcases h1 q hq with a | b
+            · exact Or.inl (List.mem_cons_of_mem _ a)
+            · exact Or.inr b
+        have h3 := ih _ _ _ h2 hok
+        apply orig_mono h3
+        · intro x hx
+          rcases List.mem_append.mp hx with hx | hx
+          · exact List.mem_append_left _ (by simp only [List.map_cons]; exact List.mem_cons_of_mem _ hx)
+          · rcases List.mem_cons.mp hx with rfl | hx
+            · exact List.mem_append_left _ (by simp)
+            · exact List.mem_append_right _ hx
+        · intro x hx
+          rcases List.mem_append.mp hx with hx | hx
+          · exact List.mem_append_left _ (by simp only [List.map_cons]; exact List.mem_cons_of_mem _ hx)
+          · rcases List.mem_cons.mp hx with rfl | hx
+            · exact List.mem_append_left _ (by simp)
+            · exact List.mem_append_right _ hx
+
+/-- the (source, destination) pairs a globbed entry expands to, as the oracle and glob.Glob's mapping give them -/
+def globPairs (O : Oracle) (cfg : PlanCfg) (ic : Nat × Content) : List (Bytes × Bytes) :=
+  match O.glob ic.1 with
+  | none => []
+  | some g => match globMap ic.2.src ic.2.dst cfg.noGlob g with
+    | .ok pairs => pairs
+    | .error _ => []
+
+/-- what one step of the loop adds: the produced entries and the destinations whose parents it creates -/
+def stepProduced (O : Oracle) (cfg : PlanCfg) (ic : Nat × Content) : List (Bytes × Content) :=
+  if isRelevant cfg.packager ic.2 = true then
+    match classify ic.2.type with
+    | .dir => [plannedFor O cfg ic.2]
+    | .fileLike => [plannedFor O cfg ic.2]
+    | .globbed => (globPairs O cfg ic).map (globEntry O cfg.umask cfg.mtime ic.2)
+    | _ => []
+  else []
+
+def stepDs (O : Oracle) (cfg : PlanCfg) (ic : Nat × Content) : List Bytes :=
+  ic.2.dst :: (globPairs O cfg ic).map (fun p => normFile p.2)
+
+/-- one step of the loop, for an entry that is irrelevant, an implicit directory, a directory, file-like or globbed -/
 theorem orig_planStep (O : Oracle) (cfg : PlanCfg) (src : List (Bytes × Content)) (ds : List Bytes) (m m' : CMap) (i : Nat) (c : Content)
-    (hcls : isRelevant cfg.packager c = true → classify c.type = .dir ∨ classify c.type = .fileLike ∨ classify c.type = .implicitDir)
+    (hcls : isRelevant cfg.packager c = true → classify c.type = .dir ∨ classify c.type = .fileLike ∨ classify c.type = .implicitDir
+      ∨ classify c.type = .globbed)
     (h : Orig cfg.mtime src ds m) (hok : planStep O cfg m (i, c) = .ok m') :
-    Orig cfg.mtime (if isRelevant cfg.packager c = true ∧ (classify c.type = .dir ∨ classify c.type = .fileLike)
-                    then plannedFor O cfg c :: src else src) (c.dst :: ds) m' := by
+    Orig cfg.mtime (stepProduced O cfg (i, c) ++ src) (stepDs O cfg (i, c) ++ ds) m' := by
   unfold planStep at hok
   simp only [] at hok
+  have hds : ∀ x ∈ c.dst :: ds, x ∈ stepDs O cfg (i, c) ++ ds := by
+    intro x hx
+    unfold stepDs
+    rcases List.mem_cons.mp hx with rfl | hx
+    · simp
+    · exact List.mem_append_right _ hx
   by_cases hrel : isRelevant cfg.packager c = true
   · simp only [hrel, Bool.not_true, Bool.false_eq_true, if_false] at hok
-    rcases hcls hrel with hd | hf | hi
-    · -- directory
-      rw [hd] at hok
+    rcases hcls hrel with hd | hf | hi | hg
+    · rw [hd] at hok
       simp only [] at hok
       split at hok
       · cases hok
@@ -81,16 +159,15 @@ theorem orig_planStep (O : Oracle) (cfg : PlanCfg) (src : List (Bytes × Content
           have h1 : Orig cfg.mtime src (c.dst :: ds) m1 :=
             orig_addParentsL cfg.mtime src (c.dst :: ds) c.dst _ (fun _ hq => hq) (by simp) m m1
               (orig_mono h (fun _ hx => hx) (fun _ hx => List.mem_cons_of_mem _ hx)) hm1
-          rw [if_pos ⟨hrel, Or.inl hd⟩]
-          intro p hp
-          rcases mem_insert_cases _ _ _ _ hp with rfl | hp
-          · left
-            simp [plannedFor, hd]
-          · rcases h1 p hp with a | b
+          have hp : stepProduced O cfg (i, c) = [plannedFor O cfg c] := by simp [stepProduced, hrel, hd]
+          rw [hp]
+          intro p hp'
+          rcases mem_insert_cases _ _ _ _ hp' with rfl | hp'
+          · left; simp [plannedFor, hd]
+          · rcases h1 p hp' with a | ⟨b1, d, b2, b3⟩
             · exact Or.inl (List.mem_cons_of_mem _ a)
-            · exact Or.inr b
-    · -- file-like
-      rw [hf] at hok
+            · exact Or.inr ⟨b1, d, hds d b2, b3⟩
+    · rw [hf] at hok
       simp only [] at hok
       split at hok
       · cases hok
@@ -102,40 +179,55 @@ theorem orig_planStep (O : Oracle) (cfg : PlanCfg) (src : List (Bytes × Content
           have h1 : Orig cfg.mtime src (c.dst :: ds) m1 :=
             orig_addParentsL cfg.mtime src (c.dst :: ds) c.dst _ (fun _ hq => hq) (by simp) m m1
               (orig_mono h (fun _ hx => hx) (fun _ hx => List.mem_cons_of_mem _ hx)) hm1
-          rw [if_pos ⟨hrel, Or.inr hf⟩]
+          have hp : stepProduced O cfg (i, c) = [plannedFor O cfg c] := by simp [stepProduced, hrel, hf]
+          rw [hp]
           have hnd : ¬ classify c.type = .dir := by rw [hf]; decide
-          intro p hp
-          rcases mem_insert_cases _ _ _ _ hp with rfl | hp
-          · left
-            simp [plannedFor, hnd]
-          · rcases h1 p hp with a | b
+          intro p hp'
+          rcases mem_insert_cases _ _ _ _ hp' with rfl | hp'
+          · left; simp [plannedFor, hnd]
+          · rcases h1 p hp' with a | ⟨b1, d, b2, b3⟩
             · exact Or.inl (List.mem_cons_of_mem _ a)
-            · exact Or.inr b
+            · exact Or.inr ⟨b1, d, hds d b2, b3⟩
     · rw [hi] at hok
       simp only [Except.ok.injEq] at hok
       subst hok
-      have : ¬ (isRelevant cfg.packager c = true ∧ (classify c.type = .dir ∨ classify c.type = .fileLike)) := by
-        rintro ⟨_, h1 | h1⟩ <;> rw [hi] at h1 <;> cases h1
-      rw [if_neg this]
-      exact orig_mono h (fun _ hx => hx) (fun _ hx => List.mem_cons_of_mem _ hx)
+      have hp : stepProduced O cfg (i, c) = [] := by simp [stepProduced, hrel, hi]
+      rw [hp]
+      exact orig_mono h (fun _ hx => by simpa using hx) (fun x hx => hds x (List.mem_cons_of_mem _ hx))
+    · rw [hg] at hok
+      simp only [] at hok
+      split at hok
+      · cases hok
+      · rename_i g hgl
+        split at hok
+        · cases hok
+        · rename_i pairs hpairs
+          have h1 := orig_addGlobbed O cfg.umask cfg.mtime c pairs src ds m m' h hok
+          have hgp : globPairs O cfg (i, c) = pairs := by simp [globPairs, hgl, hpairs]
+          have hp : stepProduced O cfg (i, c) = pairs.map (globEntry O cfg.umask cfg.mtime c) := by
+            simp [stepProduced, hrel, hg, hgp]
+          rw [hp]
+          apply orig_mono h1 (fun _ hx => hx)
+          intro x hx
+          unfold stepDs
+          rw [hgp]
+          rcases List.mem_append.mp hx with hx | hx
+          · exact List.mem_append_left _ (List.mem_cons_of_mem _ hx)
+          · exact List.mem_append_right _ hx
   · simp only [hrel, Bool.not_false, if_true, Except.ok.injEq] at hok
     subst hok
-    rw [if_neg (fun hh => hrel hh.1)]
-    exact orig_mono h (fun _ hx => hx) (fun _ hx => List.mem_cons_of_mem _ hx)
-
-/-- the requests a list of indexed entries produces -/
-def produced (O : Oracle) (cfg : PlanCfg) (ics : List (Nat × Content)) : List (Bytes × Content) :=
-  (ics.filter (fun ic => isRelevant cfg.packager ic.2 = true ∧ (classify ic.2.type = .dir ∨ classify ic.2.type = .fileLike))).map
-    (fun ic => plannedFor O cfg ic.2)
+    have hp : stepProduced O cfg (i, c) = [] := by simp [stepProduced, hrel]
+    rw [hp]
+    exact orig_mono h (fun _ hx => by simpa using hx) (fun x hx => hds x (List.mem_cons_of_mem _ hx))
 
 theorem orig_planMap (O : Oracle) (cfg : PlanCfg) (ics : List (Nat × Content)) (src : List (Bytes × Content)) (ds : List Bytes)
     (m m' : CMap)
     (hcls : ∀ ic ∈ ics, isRelevant cfg.packager ic.2 = true →
-      classify ic.2.type = .dir ∨ classify ic.2.type = .fileLike ∨ classify ic.2.type = .implicitDir)
+      classify ic.2.type = .dir ∨ classify ic.2.type = .fileLike ∨ classify ic.2.type = .implicitDir ∨ classify ic.2.type = .globbed)
     (h : Orig cfg.mtime src ds m) (hok : planMap O cfg ics m = .ok m') :
-    Orig cfg.mtime (produced O cfg ics ++ src) (ics.map (·.2.dst) ++ ds) m' := by
+    Orig cfg.mtime (ics.flatMap (stepProduced O cfg) ++ src) (ics.flatMap (stepDs O cfg) ++ ds) m' := by
   induction ics generalizing m src ds with
-  | nil => simp [planMap] at hok; subst hok; simpa [produced] using h
+  | nil => simp [planMap] at hok; subst hok; simpa using h
   | cons ic rest ih =>
     obtain ⟨i, c⟩ := ic
     unfold planMap at hok
@@ -146,26 +238,16 @@ theorem orig_planMap (O : Oracle) (cfg : PlanCfg) (ics : List (Nat × Content)) 
       have h2 := ih _ _ m1 (fun x hx => hcls x (List.mem_cons_of_mem _ hx)) h1 hok
       apply orig_mono h2
       · intro x hx
-        rcases List.mem_append.mp hx with hx | hx
-        · apply List.mem_append_left
-          unfold produced at hx ⊢
-          obtain ⟨y, hy, rfl⟩ := List.mem_map.mp hx
-          exact List.mem_map.mpr ⟨y, by
-            rw [List.mem_filter] at hy ⊢
-            exact ⟨List.mem_cons_of_mem _ hy.1, hy.2⟩, rfl⟩
-        · split at hx
-          · rename_i hc
-            rcases List.mem_cons.mp hx with rfl | hx
-            · apply List.mem_append_left
-              unfold produced
-              exact List.mem_map.mpr ⟨(i, c), by rw [List.mem_filter]; exact ⟨by simp, by simpa using hc⟩, rfl⟩
-            · exact List.mem_append_right _ hx
-          · exact List.mem_append_right _ hx
+        simp only [List.flatMap_cons, List.mem_append] at hx ⊢
+        rcases hx with hx | hx | hx
+        · exact Or.inl (Or.inr hx)
+        · exact Or.inl (Or.inl hx)
+        · exact Or.inr hx
       · intro x hx
-        rcases List.mem_append.mp hx with hx | hx
-        · exact List.mem_append_left _ (by simp only [List.map_cons, List.mem_cons]; exact Or.inr hx)
-        · rcases List.mem_cons.mp hx with rfl | hx
-          · exact List.mem_append_left _ (by simp)
-          · exact List.mem_append_right _ hx
+        simp only [List.flatMap_cons, List.mem_append] at hx ⊢
+        rcases hx with hx | hx | hx
+        · exact Or.inl (Or.inr hx)
+        · exact Or.inl (Or.inl hx)
+        · exact Or.inr hx
 
 end Nfpm
